@@ -272,9 +272,11 @@ def run_impl_seq(case, backing="list"):
 def oracle_seq(case, ctx=None):
     """The property on every call of the sequence. Returns (clause|None, results of the first backing).
 
-    Generator-backed frames: orso's lazy frame is a one-pass source (DataFrame.__iter__ hands out the
-    generator itself), so only the call that runs first can see rows.  That call is judged like any
-    other; later calls on the consumed source are observed and counted, never judged."""
+    Generator-backed frames: DataFrame.__iter__ materialises a lazily backed frame (repair C03-F04), so
+    a second grouping of the same frame sees the same rows as the first; "one at a time or several
+    together" and "lazily backed or materialised" make every call of the sequence subject to the
+    property, and every call is judged (seeded change C12-w2s2: GroupBy._map reading the backing
+    store directly consumes the generator, later calls see no rows)."""
     first = None
     for b in case.get("backings", ["list"]):
         res = run_impl_seq(case, b)
@@ -285,11 +287,9 @@ def oracle_seq(case, ctx=None):
             sub = sub_case(case, el)
             want = mirror(sub)
             g = el.get("gb", 0)
-            if b == "gen" and i > 0:
-                if ctx is not None:
-                    ctx.hit("gen-later-call:" + ("as-reference" if compare(sub, impl, want) is None
-                                                 else "err" if impl[0] == "err" else "no-rows" if not impl[2] else "other"))
-                continue
+            if b == "gen" and i > 0 and ctx is not None:
+                ctx.hit("gen-later-call:" + ("as-reference" if compare(sub, impl, want) is None
+                                             else "err" if impl[0] == "err" else "no-rows" if not impl[2] else "other"))
             cl = compare(sub, impl, want)
             if cl is not None:
                 if g in used:
@@ -390,8 +390,6 @@ def evaluate_seq(ctx, cases):
             ctx.fail(c_min, cl2 or clause, impl=[_show(r) for r in impl2], model=None if m2 is None else [_show(r) for r in m2])
             continue
         for i, (sub, r, m) in enumerate(zip(subs, impl, mres)):
-            if c.get("backings", ["list"])[0] == "gen" and i > 0:
-                continue
             cl = compare(sub, r, m)
             if cl is not None:
                 ctx.disagree(c, [_show(x) for x in impl], [_show(x) for x in mres], what="call %d: %s" % (i, cl))
